@@ -29,6 +29,15 @@ def generate(G):
             skeleton={"stack": "Conv(%s)" % filt, "input": inp, "cost": "Bilinear", "iterations": iters}, domains="D2")
 
     conv([1, 2, 2], [1, 1, 1, 2], (1, 1), 1, "quick")
+    # two conv layers: the second one's input derivative over a non-square grid of windows
+    G.ob("c14_conv2_1x2x3_f1x1_f2x2", "C14", "conv2_loop", "c14::conv2_loop(s, &[1, 2, 3], (1, 1, 1, 1), (1, 1, 2, 2), (1, 1))",
+         unwind=16, tier="quick", heavy=True,
+         skeleton={"stack": "Conv(1x1x1x1) -> Conv(1x1x2x2)", "input": [1, 2, 3], "cost": "Bilinear", "iterations": 1,
+                   "windows_of_second_layer": "1 x 2 (non-square)"}, domains="D2")
+    G.ob("c14_conv2_1x3x2_f1x1_f2x2", "C14", "conv2_loop", "c14::conv2_loop(s, &[1, 3, 2], (1, 1, 1, 1), (1, 1, 2, 2), (1, 1))",
+         unwind=16, tier="thorough", heavy=True,
+         skeleton={"stack": "Conv(1x1x1x1) -> Conv(1x1x2x2)", "input": [1, 3, 2], "cost": "Bilinear", "iterations": 1,
+                   "windows_of_second_layer": "2 x 1 (non-square)"}, domains="D2")
     conv([1, 2, 3], [1, 1, 2, 2], (1, 1), 1, "thorough")
     conv([2, 1, 2, 2], [1, 1, 2, 1], (1, 1), 1, "thorough")
     conv([1, 2, 2], [1, 1, 1, 2], (1, 1), 2, "thorough")
